@@ -57,6 +57,7 @@ fn main() {
             v["group"].as_str().unwrap_or("").to_string(),
             v["case"].as_u64().unwrap_or(0),
         ));
+        ctx.replay_history = v["history"].as_array().map(|a| a.iter().filter_map(|x| x.as_u64()).collect()).unwrap_or_default();
         eprintln!("replaying {} group={} case={} seed={}", prop, v["group"], v["case"], ctx.seed);
     }
     let mut extra = json!({});
